@@ -9,6 +9,7 @@ open HgImpl
 type node = { mutable st : hg; shadow : (string, string) Hashtbl.t }
 
 let nodes : (string, node) Hashtbl.t = Hashtbl.create 16
+let dead : (string, unit) Hashtbl.t = Hashtbl.create 16   (* nodes with injected faults: not modelled any more *)
 let body_of_id : (string, string) Hashtbl.t = Hashtbl.create 64
 let id_of_body : (string, string) Hashtbl.t = Hashtbl.create 64
 
@@ -112,7 +113,9 @@ let node_of id = try Hashtbl.find nodes id with Not_found -> failwith ("unknown 
 
 let handle check diff (toks : string list) (raw : string) : bool =
   match toks with
-  | "H" :: _ -> Hashtbl.reset nodes; Hashtbl.reset body_of_id; Hashtbl.reset id_of_body; true
+  | ("B" | "I" | "G" | "o" | "K") :: id :: _ when Hashtbl.mem dead id -> true
+  | "F" :: id :: [] -> Hashtbl.replace dead id (); true
+  | "H" :: _ -> Hashtbl.reset nodes; Hashtbl.reset dead; Hashtbl.reset body_of_id; Hashtbl.reset id_of_body; true
   | "N" :: id :: self :: gen ->
     let ps = map (fun t -> match Stdlib.String.split_on_char ':' t with
         | [pid; ord] -> { Quorum.pid = z_of_string pid; pkey = z_of_string ord }
